@@ -34,4 +34,11 @@ def sites : List Site := [
 /-- transport-thread channel handlers and whether they (or a method they call) take Channel.lock -/
 def handlers : List (String × Bool) := [("_feed", false), ("_feed_extended", true), ("_handle_close", true), ("_handle_eof", true), ("_handle_request", false), ("_request_failed", true), ("_request_success", false), ("_window_adjust", true)]
 
+/-- Transport._send_user_message: the `_send_message` call is reached only through an `is_set()` test made while
+clear_to_send_lock is held -/
+def sendRechecksUnderLock : Bool := true
+
+/-- Transport._send_kex_init: clear_to_send is cleared under the lock before KEXINIT is written -/
+def kexInitClearsBeforeWrite : Bool := true
+
 end PV.Generated.C11
